@@ -146,6 +146,11 @@ Definition next_time (cs : composition) (st : state) (c : nat) : Z :=
   | KPull => 0
   end.
 
+(** outputs [0 .. c_nout-1] of a component are ordinary outputs; an output index >= [c_nout] denotes one of its
+    STATIC outputs (published once at connect, served for every request time, never a dependency) *)
+Definition is_static_src (cs : composition) (src : nat * nat) : bool :=
+  Nat.leb (c_nout (getc cs (fst src))) (snd src).
+
 Definition ptime_of (cs : composition) (st : state) (src : nat * nat) : option Z :=
   if is_time cs (fst src) then Some (s_time st (fst src)) else None.
 
@@ -181,7 +186,10 @@ Fixpoint pull_input (fuel : nat) (cs : composition) (st : state) (c i : nat) (in
       let st1 := mkS (s_time st) (s_cnt st) (upd2 (s_link st) c i ss') in
       let acc1 := EP c i t :: acc in
       let inrange := (t0_of cs <=? r) && (r <=? s_time st (fst src)) in
-      if buffered then
+      if is_static_src cs src then
+        (* a static output serves its single publication for every request time *)
+        (st1, ES (fst src) (snd src) r :: acc1, None)
+      else if buffered then
         (st1, EB c i r :: acc1, if inrange then None else Some ETime)
       else if is_time cs (fst src) then
         (st1, ES (fst src) (snd src) r :: acc1, if inrange then None else Some ETime)
@@ -211,6 +219,12 @@ Fixpoint ins_dep (o : nat * nat) (lt : Z) (l : list ((nat * nat) * Z)) : list ((
   | (o', lt') :: r => if out_eqb o o' then (o', Z.max lt lt') :: r else (o', lt') :: ins_dep o lt r
   end.
 
+(** the requirement of one link as [_find_dependencies] sees it: none for a static source or a link cut by a
+    NoDependencyAdapter, otherwise the time the source must have reached *)
+Definition link_dep (cs : composition) (st : state) (c k : nat) (inp : input) (t : Z) : option Z :=
+  if is_static_src cs (i_src inp) then None
+  else sched_walk (i_chain inp) (s_link st c k) (init_of cs (i_src inp)) (ptime_of cs st (i_src inp)) false t.
+
 Fixpoint find_deps_from (cs : composition) (st : state) (c : nat) (k : nat) (ins : list input) (target : Z)
   (deps : list ((nat * nat) * Z)) : list ((nat * nat) * Z) :=
   match ins with
@@ -218,7 +232,7 @@ Fixpoint find_deps_from (cs : composition) (st : state) (c : nat) (k : nat) (ins
   | x :: rest =>
       let src := i_src x in
       let deps' :=
-        match sched_walk (i_chain x) (s_link st c k) (init_of cs src) (ptime_of cs st src) false target with
+        match link_dep cs st c k x target with
         | None => deps
         | Some lt =>
             if is_time cs (fst src) then
